@@ -964,18 +964,17 @@ class GssapiWithMicAuthHandler:
         self._restore_delegate_auth_handler()
         return self._delegate._parse_userauth_request(m)
 
-    __handler_table = {
-        MSG_SERVICE_REQUEST: _parse_service_request,
-        MSG_USERAUTH_REQUEST: _parse_userauth_request,
-        MSG_USERAUTH_GSSAPI_TOKEN: _parse_userauth_gssapi_token,
-        MSG_USERAUTH_GSSAPI_MIC: _parse_userauth_gssapi_mic,
-    }
-
     @property
     def _handler_table(self):
         # TODO: determine if we can cut this up like we did for the primary
         # AuthHandler class.
-        return self.__handler_table
+        # NOTE: bound methods -- Transport.run calls ``handler(m)``.
+        return {
+            MSG_SERVICE_REQUEST: self._parse_service_request,
+            MSG_USERAUTH_REQUEST: self._parse_userauth_request,
+            MSG_USERAUTH_GSSAPI_TOKEN: self._parse_userauth_gssapi_token,
+            MSG_USERAUTH_GSSAPI_MIC: self._parse_userauth_gssapi_mic,
+        }
 
 
 class AuthOnlyHandler(AuthHandler):
